@@ -189,16 +189,16 @@ func load(ds Dataset) (*mini.Fixture, mini.Bucket, error) {
 // Q is one statement of the grammar (every slot is an index/alternative).
 type Q struct {
 	Proj    string `json:"proj"`  // v | vw | count | sum | mean | min | max | first | last
-	TR      int    `json:"time"`  // index into timeRanges
-	Tag     int    `json:"tag"`   // 0 none, 1 h='a', 2 h!='a'
-	Field   bool   `json:"field"` // v > 1
-	GB      int    `json:"group"` // 0 none, 1 time(20m), 2 time(30m,10m), 3 h, 4 time(20m),h
-	Fill    string `json:"fill"`  // "" (clause absent) | null | none | 0 | previous | linear
-	Desc    bool   `json:"desc"`
-	Limit   int    `json:"limit"`
-	Offset  int    `json:"offset"`
-	SLimit  int    `json:"slimit"`
-	SOffset int    `json:"soffset"`
+	TR      int    `json:"time,omitempty"`  // index into timeRanges
+	Tag     int    `json:"tag,omitempty"`   // 0 none, 1 h='a', 2 h!='a'
+	Field   bool   `json:"field,omitempty"` // v > 1
+	GB      int    `json:"group,omitempty"` // 0 none, 1 time(20m), 2 time(30m,10m), 3 h, 4 time(20m),h
+	Fill    string `json:"fill,omitempty"`  // "" (clause absent) | null | none | 0 | previous | linear
+	Desc    bool   `json:"desc,omitempty"`
+	Limit   int    `json:"limit,omitempty"`
+	Offset  int    `json:"offset,omitempty"`
+	SLimit  int    `json:"slimit,omitempty"`
+	SOffset int    `json:"soffset,omitempty"`
 }
 
 // timeRange: inclusive nanosecond bounds relative to B; has=false: no bound. Text is built from the same numbers.
@@ -1148,6 +1148,9 @@ func projKind(q Q) string {
 func sigOf(q Q, clause string) string {
 	gb := []string{"none", "time", "time", "tag", "time+tag"}[q.GB]
 	parts := []string{"SELECT", clause, projKind(q), "groupby=" + gb}
+	if strings.HasSuffix(clause, "-error") {
+		return vlib.JoinSig(parts...) // acceptance/rejection of a statement does not depend on the other slots
+	}
 	if d, _ := q.interval(); d != 0 && q.isAgg() {
 		fl := q.Fill
 		if fl == "" {
